@@ -196,6 +196,11 @@ theorem extractOne_spec (buf x : Bytes) (r : Extract) (h : extractOne buf = r) (
       | some hsr =>
         rw [hs] at h
         simp only at h ⊢
+        by_cases hte : hsr.haveTE = true ∧ ¬ hsr.isChunked = true
+        · rw [if_pos hte] at h ⊢
+          subst h
+          exact ⟨rfl, by intro raw n h; cases h⟩
+        rw [if_neg hte] at h ⊢
         by_cases hboth : hsr.isChunked = true ∧ hsr.haveCL = true
         · simp only [hboth, and_self, ↓reduceIte] at h ⊢
           subst h
@@ -411,44 +416,46 @@ def clValue? (line : Bytes) : Option Bytes :=
   | some colon =>
     if lower (trim (line.take colon)) = ascii "content-length" then some (trim (line.drop (colon + 1))) else none
 
-/-- is this a `Transfer-Encoding` line naming `chunked`, as the header scan sees it -/
-def teChunked (line : Bytes) : Bool :=
+/-- the final transfer coding of a `Transfer-Encoding` line (lower-cased), as the header scan sees it -/
+def teFinal? (line : Bytes) : Option Bytes :=
   match indexOf? (· == 58) line with
-  | none => false
+  | none => none
   | some colon =>
-    lower (trim (line.take colon)) == ascii "transfer-encoding" &&
-      contains (lower (trim (line.drop (colon + 1)))) (ascii "chunked")
+    if lower (trim (line.take colon)) = ascii "transfer-encoding" then
+      some (lastToken (splitOn 44 (lower (trim (line.drop (colon + 1))))) [])
+    else none
+
+/-- the final coding of the LAST `Transfer-Encoding` line (`acc`: of the lines before) -/
+def lastTE : List Bytes → Option Bytes → Option Bytes
+  | [], acc => acc
+  | l :: ls, acc => lastTE ls (match teFinal? l with | some t => some t | none => acc)
+
+theorem cl_ne_te' : ascii "content-length" ≠ ascii "transfer-encoding" := by decide
 
 theorem scanHeaderLines_spec : ∀ (ls : List Bytes) (hs0 hs : HdrScan), scanHeaderLines ls hs0 = some hs →
     hs0.contentLength ≤ Gen.Http.serverMaxBodySize →
     hs.contentLength ≤ Gen.Http.serverMaxBodySize ∧
     (hs0.haveCL = true → hs.haveCL = true ∧ hs.contentLength = hs0.contentLength) ∧
-    (hs0.isChunked = true → hs.isChunked = true) ∧
-    (∀ l ∈ ls, ∀ v, clValue? l = some v → hs.haveCL = true ∧ parseFullUInt 10 v = some hs.contentLength) ∧
-    (∀ l ∈ ls, teChunked l = true → hs.isChunked = true) := by
+    (∀ l ∈ ls, ∀ v, clValue? l = some v → hs.haveCL = true ∧ parseFullUInt 10 v = some hs.contentLength) := by
   intro ls
   induction ls with
   | nil =>
     intro hs0 hs h hb
     simp only [scanHeaderLines, Option.some.injEq] at h
     subst h
-    exact ⟨hb, fun h => ⟨h, rfl⟩, fun h => h, by simp, by simp⟩
+    exact ⟨hb, fun h => ⟨h, rfl⟩, by simp⟩
   | cons line rest ih =>
     intro hs0 hs h hb
     simp only [scanHeaderLines] at h
     cases hc : indexOf? (· == 58) line with
     | none =>
       rw [hc] at h
-      obtain ⟨a, b, c, d, e⟩ := ih hs0 hs h hb
-      refine ⟨a, b, c, ?_, ?_⟩
-      · intro l hl v hv
-        rcases List.mem_cons.mp hl with rfl | hl
-        · simp [clValue?, hc] at hv
-        · exact d l hl v hv
-      · intro l hl hv
-        rcases List.mem_cons.mp hl with rfl | hl
-        · simp [teChunked, hc] at hv
-        · exact e l hl hv
+      obtain ⟨a, b, d⟩ := ih hs0 hs h hb
+      refine ⟨a, b, ?_⟩
+      intro l hl v hv
+      rcases List.mem_cons.mp hl with rfl | hl
+      · simp [clValue?, hc] at hv
+      · exact d l hl v hv
     | some colon =>
       rw [hc] at h
       simp only at h
@@ -465,10 +472,10 @@ theorem scanHeaderLines_spec : ∀ (ls : List Bytes) (hs0 hs : HdrScan), scanHea
             split at h
             · cases h
             · rename_i hbig
-              obtain ⟨a, b, c, d, e⟩ := ih _ hs h (by simp only; omega)
+              obtain ⟨a, b, d⟩ := ih _ hs h (by simp only; omega)
               have hb1 := b rfl
-              simp only at hb1 c
-              refine ⟨a, ?_, c, ?_, ?_⟩
+              simp only at hb1
+              refine ⟨a, ?_, ?_⟩
               · intro h0
                 refine ⟨hb1.1, ?_⟩
                 rw [hb1.2]
@@ -481,47 +488,126 @@ theorem scanHeaderLines_spec : ∀ (ls : List Bytes) (hs0 hs : HdrScan), scanHea
                   subst hv
                   exact ⟨hb1.1, by rw [hp, hb1.2]⟩
                 · exact d l hl v hv
-              · intro l hl hv
-                rcases List.mem_cons.mp hl with rfl | hl
-                · have : ascii "content-length" ≠ ascii "transfer-encoding" := by decide
-                  simp [teChunked, hc, hk, this] at hv
-                · exact e l hl hv
       · simp only [hk, ↓reduceIte] at h
         by_cases ht : lower (trim (line.take colon)) = ascii "transfer-encoding"
         · simp only [ht, ↓reduceIte] at h
-          by_cases hch : contains (lower (trim (line.drop (colon + 1)))) (ascii "chunked") = true
-          · simp only [hch, ↓reduceIte] at h
-            obtain ⟨a, b, c, d, e⟩ := ih _ hs h hb
-            refine ⟨a, b, fun _ => c rfl, ?_, ?_⟩
-            · intro l hl v hv
-              rcases List.mem_cons.mp hl with rfl | hl
-              · simp [clValue?, hc, hk] at hv
-              · exact d l hl v hv
-            · intro l hl hv
-              rcases List.mem_cons.mp hl with rfl | hl
-              · exact c rfl
-              · exact e l hl hv
-          · simp only [hch, Bool.false_eq_true, ↓reduceIte] at h
-            obtain ⟨a, b, c, d, e⟩ := ih hs0 hs h hb
-            refine ⟨a, b, c, ?_, ?_⟩
-            · intro l hl v hv
-              rcases List.mem_cons.mp hl with rfl | hl
-              · simp [clValue?, hc, hk] at hv
-              · exact d l hl v hv
-            · intro l hl hv
-              rcases List.mem_cons.mp hl with rfl | hl
-              · simp [teChunked, hc, hch] at hv
-              · exact e l hl hv
+          obtain ⟨a, b, d⟩ := ih _ hs h hb
+          refine ⟨a, b, ?_⟩
+          intro l hl v hv
+          rcases List.mem_cons.mp hl with rfl | hl
+          · simp [clValue?, hc, hk] at hv
+          · exact d l hl v hv
         · simp only [ht, ↓reduceIte] at h
-          obtain ⟨a, b, c, d, e⟩ := ih hs0 hs h hb
-          refine ⟨a, b, c, ?_, ?_⟩
-          · intro l hl v hv
-            rcases List.mem_cons.mp hl with rfl | hl
-            · simp [clValue?, hc, hk] at hv
-            · exact d l hl v hv
-          · intro l hl hv
-            rcases List.mem_cons.mp hl with rfl | hl
-            · simp [teChunked, hc, ht] at hv
-            · exact e l hl hv
+          obtain ⟨a, b, d⟩ := ih hs0 hs h hb
+          refine ⟨a, b, ?_⟩
+          intro l hl v hv
+          rcases List.mem_cons.mp hl with rfl | hl
+          · simp [clValue?, hc, hk] at hv
+          · exact d l hl v hv
+
+/-- what the header scan knows about Transfer-Encoding: `haveTE` iff some line is a Transfer-Encoding line, and
+`isChunked` iff the final coding of the LAST such line is exactly `chunked` -/
+theorem scanHeaderLines_te : ∀ (ls : List Bytes) (hs0 hs : HdrScan) (acc : Option Bytes),
+    scanHeaderLines ls hs0 = some hs →
+    hs0.haveTE = acc.isSome → (∀ t, acc = some t → hs0.isChunked = (t == ascii "chunked")) →
+    hs.haveTE = (lastTE ls acc).isSome ∧ (∀ t, lastTE ls acc = some t → hs.isChunked = (t == ascii "chunked")) ∧
+    (lastTE ls acc = none → hs.isChunked = hs0.isChunked) := by
+  intro ls
+  induction ls with
+  | nil =>
+    intro hs0 hs acc h h1 h2
+    simp only [scanHeaderLines, Option.some.injEq] at h
+    subst h
+    exact ⟨h1, h2, fun _ => rfl⟩
+  | cons line rest ih =>
+    intro hs0 hs acc h h1 h2
+    simp only [scanHeaderLines] at h
+    simp only [lastTE]
+    cases hc : indexOf? (· == 58) line with
+    | none =>
+      rw [hc] at h
+      have : teFinal? line = none := by simp [teFinal?, hc]
+      rw [this]
+      exact ih hs0 hs acc h h1 h2
+    | some colon =>
+      rw [hc] at h
+      simp only at h
+      by_cases hk : lower (trim (line.take colon)) = ascii "content-length"
+      · simp only [hk, ↓reduceIte] at h
+        have hte : teFinal? line = none := by simp [teFinal?, hc, hk, cl_ne_te']
+        rw [hte]
+        cases hp : parseFullUInt 10 (trim (line.drop (colon + 1))) with
+        | none => rw [hp] at h; cases h
+        | some n =>
+          rw [hp] at h
+          simp only at h
+          split at h
+          · cases h
+          · split at h
+            · cases h
+            · exact ih { hs0 with contentLength := n, haveCL := true } hs acc h h1 h2
+      · simp only [hk, ↓reduceIte] at h
+        by_cases ht : lower (trim (line.take colon)) = ascii "transfer-encoding"
+        · simp only [ht, ↓reduceIte] at h
+          have hte : teFinal? line = some (lastToken (splitOn 44 (lower (trim (line.drop (colon + 1))))) []) := by
+            simp [teFinal?, hc, ht]
+          rw [hte]
+          obtain ⟨a, b, c⟩ := ih _ hs (some (lastToken (splitOn 44 (lower (trim (line.drop (colon + 1))))) [])) h rfl
+            (by intro t htt; cases htt; rfl)
+          refine ⟨a, b, ?_⟩
+          intro hnone
+          -- the accumulator is `some _`, so `lastTE … = none` is impossible
+          have : ∀ (ls : List Bytes) (t : Bytes), lastTE ls (some t) ≠ none := by
+            intro ls
+            induction ls with
+            | nil => intro t h; cases h
+            | cons l ls ih2 =>
+              intro t
+              simp only [lastTE]
+              cases teFinal? l with
+              | none => exact ih2 t
+              | some t' => exact ih2 t'
+          exact absurd hnone (this _ _)
+        · simp only [ht, ↓reduceIte] at h
+          have hte : teFinal? line = none := by simp [teFinal?, hc, ht]
+          rw [hte]
+          exact ih hs0 hs acc h h1 h2
+
+/-! ### chunk sizes (server) -/
+
+theorem sizeDigits_le (mb : Nat) : ∀ (l : Bytes) (acc k n d : Nat) (r : Bytes),
+    sizeDigits mb l acc k = some (n, d, r) → acc ≤ mb → n ≤ mb ∧ k ≤ d := by
+  intro l
+  induction l with
+  | nil => intro acc k n d r h hacc; simp [sizeDigits] at h; omega
+  | cons c cs ih =>
+    intro acc k n d r h hacc
+    simp only [sizeDigits] at h
+    cases hd : digitVal 16 c with
+    | none => rw [hd] at h; simp at h; omega
+    | some v =>
+      rw [hd] at h
+      simp only at h
+      split at h
+      · cases h
+      · have := ih _ _ n d r h (by omega)
+        omega
+
+/-- an accepted chunk-size line denotes a size within the body limit: every prefix value of the digit run was compared with
+`MAX_BODY_SIZE` before the next digit was shifted in, so the accumulator never wraps -/
+theorem sizeLine_le (mb : Nat) (line : Bytes) (n : Nat) (h : sizeLine mb line = some n) : n ≤ mb := by
+  unfold sizeLine at h
+  cases hs : sizeDigits mb line 0 0 with
+  | none => rw [hs] at h; cases h
+  | some t =>
+    obtain ⟨size, digits, rest⟩ := t
+    rw [hs] at h
+    simp only at h
+    have := (sizeDigits_le mb line 0 0 size digits rest hs (Nat.zero_le _)).1
+    split at h
+    · cases h
+    · split at h
+      · cases h; exact this
+      · cases h
 
 end Iora.Http.Srv
